@@ -11,7 +11,7 @@ from fractions import Fraction
 from xvlib.core import Check
 from xvlib.frontend import AnalysisBroken
 from xvlib import inittab, datafiles
-from xvlib.facts import walk, show, is_call, calls_in
+from xvlib.facts import walk, show, is_call, calls_in, strip_casts
 from xvlib.inittab import Ref, Lit
 from xvlib.names import Names
 from xvlib.normform import Normalizer, NotInClass
@@ -58,7 +58,63 @@ def run(prog, tier):
     sorted_twin(prog, chk)
     crystals(prog, chk, zmax, tier)
     access_paths(prog, chk)
+    crystal_collection(prog, chk, tier)
+    java_deep_copies(prog, chk)
     return chk
+
+
+def crystal_collection(prog, chk, tier):
+    """The crystal catalogue is a name-sorted vector searched with bsearch: "lookup by name and the name list describe the same entries
+    in the same order" holds only while every operation that adds entries leaves the WHOLE vector sorted with the comparator that agrees
+    with the search, and rejects duplicates.  That is decided by rules/c14.py; its verdicts on these clauses are read here."""
+    from rules import c14
+    shim = Check('C15', tier, 'other', '', [], [])
+    c14.add_crystal(prog, shim)
+    c14.comparators(prog, shim)
+    c14.read_file(prog, shim)
+    take = ('sorted-after-append', 'order-agrees-with-search', 'duplicates-rejected')
+    n = 0
+    for rule, inst, why, loc in shim.held:
+        if rule in take:
+            n += 1
+            chk.ok('crystal-catalogue-sorted', '%s: %s' % (rule, inst), why, loc)
+    for v in shim.violations:
+        if v['rule'] in take:
+            n += 1
+            chk.bad('crystal-catalogue-sorted', v['unit'], v['function'], '%s: %s' % (v['rule'], v['instance']), v['loc'],
+                    'after this operation lookup by name (bsearch) and the name list no longer describe the same entries: ' + v['message'])
+    chk.floor('obligations on the order of the crystal catalogue', n, 6)
+
+
+def java_deep_copies(prog, chk):
+    """"every lookup returns an independent deep copy" in the Java binding: the lookups hand out `new T(catalogue entry)`, so the copy
+    constructor of every catalogue class must give each array member an array of its own (new + arraycopy / element-wise copy,
+    clone(), Arrays.copyOf) - assigning the source's array shares it, and a caller who writes into its copy rewrites the catalogue."""
+    ju = [u for u in prog.units if u.get('lang') == 'java']
+    if not ju:
+        chk.note('Java sources not parsed: deep copies of the Java binding not decided')
+        return
+    n = 0
+    for c in ju[0]['classes']:
+        arrays = [fl['name'] for fl in c.get('fields', []) if '[]' in (fl.get('T') or '') and not fl.get('static')]
+        for m in c['functions']:
+            if m['name'] != c['name'] or len(m.get('params', [])) != 1 or m['params'][0].get('T') != c['name'] or 'body' not in m:
+                continue
+            src = m['params'][0]['name']
+            for fld in arrays:
+                n += 1
+                shared = fresh = False
+                for x in walk(m['body']):
+                    if x.get('k') == 'BinaryOperator' and x.get('op') == '=' and show(x['c'][0]).replace('this.', '') == fld:
+                        rhs = strip_casts(x['c'][1])
+                        if rhs.get('k') == 'MemberExpr' and (rhs.get('text') or show(rhs)).replace(' ', '') == '%s.%s' % (src, fld):
+                            shared = True
+                        elif rhs.get('k') in ('NewExpr', 'NewArray') or (rhs.get('k') == 'CallExpr' and rhs.get('callee') in ('clone', 'copyOf', 'copyOfRange')):
+                            fresh = True
+                chk.decide(fresh and not shared, 'java-deep-copy', c['rel'], '%s(%s)' % (c['name'], c['name']), fld, '%s:%d' % (c['rel'], m['ln']),
+                           'the copy constructor %s the array member %s: the object handed out by the lookups shares it with the catalogue entry' % (
+                               'assigns the source\'s array to' if shared else 'does not allocate', fld), why='own array for %s' % fld)
+    chk.floor('array members of Java catalogue classes with a copy constructor', n, 7)
 
 
 # --------------------------------------------------------------------------------------------------
